@@ -829,7 +829,7 @@ pub fn replace(input_string_value: &Value, pattern_string_value: &Value, replace
     if let Value::String(pattern_string) = pattern_string_value {
       if let Value::String(replacement_string) = replacement_string_value {
         // Rust implementation is eager when parsing matching groups, so place numbers in square brackets
-        let repl = if let Ok(rg) = Regex::new("\\$([1-9][0-9]*)") {
+        let repl = if let Ok(rg) = Regex::new("\\$([0-9][0-9]*)") {
           rg.replace_all(replacement_string.as_str(), "$${${1}}").to_string()
         } else {
           replacement_string.clone()
